@@ -1916,3 +1916,9 @@ unsafe fn box_free<T, A: Allocator>(ptr: NonNull<T>, alloc: A) {
 
     alloc.deallocate(ptr.cast(), layout);
 }
+
+// Verification harnesses for the private items of this module (sources are
+// supplied by the verification harness at check time).
+#[cfg(kani)]
+#[path = "verif/k_rc.rs"]
+mod k_rc;
